@@ -7,7 +7,8 @@
    transit and destination - and not leaving the mover's king attacked).
    The model is tied to the code by the correspondence with the implementation on every run. *)
 From Walleye Require Import Model.Successor Spec.Abs Proofs.CheckProofs Proofs.MoveGenProofs Proofs.GenerateAbs Proofs.LegalMoves Proofs.NoDupMoves
-     Proofs.LegalPosition Proofs.Preservation.
+     Proofs.LegalPosition Proofs.Preservation Proofs.InitialPosition Proofs.FenLegal.
+From Walleye Require Import Model.Fen Spec.FenPrint.
 Open Scope Z_scope.
 
 (* soundness: no illegal move appears *)
@@ -68,6 +69,34 @@ Proof.
   destruct (C01_generated_moves_exactly_legal zt x POx) as (A & _ & C). split; assumption.
 Qed.
 
+(* no hypothesis left: every position of every game - any chain of generated (= legal) moves from the initial
+   position as the engine's own loader builds it - has exactly the legal moves generated, each once *)
+Theorem C01_every_game_from_the_initial_position : forall zt x,
+  reachable zt initial_state x ->
+  (forall mv, In (Some mv) (map desc (generate_moves zt x AllMoves)) <-> In mv (legal_moves (abs x))) /\
+  NoDup (map desc (generate_moves zt x AllMoves)).
+Proof. intros zt x R. destruct (every_game_position_is_covered zt x R) as (A & B0 & _). split; assumption. Qed.
+
+(* the hypothesis is established by the engine's own loader: whatever string it accepts, if the position the
+   loaded state denotes is legal in the sense of C01, then along every chain of generated moves from it the
+   generated moves are exactly the legal ones, each once -- no representation hypothesis is left *)
+Theorem C01_every_game_from_an_accepted_legal_position : forall zt fen st x,
+  from_fen zt fen = Ok st -> legal_position (abs st) = true -> reachable zt st x ->
+  (forall mv, In (Some mv) (map desc (generate_moves zt x AllMoves)) <-> In mv (legal_moves (abs x))) /\
+  NoDup (map desc (generate_moves zt x AllMoves)).
+Proof.
+  intros zt fen st x H LP R. destruct (accepted_legal_is_covered zt fen st H LP) as (PO & _).
+  exact (C01_holds_along_every_chain zt st x PO R).
+Qed.
+
+(* and every legal position can be handed over: its printed FEN is accepted and denotes it *)
+Theorem C01_every_legal_position_can_be_loaded : forall zt p h f,
+  legal_position p = true -> 0 <= h < 2 ^ 32 -> 0 <= f < 2 ^ 32 ->
+  exists st, from_fen zt (print_fen p h f) = Ok st /\ abs st = p /\ pos_ok1 st.
+Proof.
+  intros zt p h f LP Hh Hf. destruct (legal_fen_is_loaded zt p h f LP Hh Hf) as (st & A & B0 & C & _). exists st. auto.
+Qed.
+
 (* a probed square that passes is_check_cords is not next to the enemy king:
    the king test looks at the probed square, not at the own king's square *)
 Theorem C01_probe_sees_enemy_king : forall s c sq,
@@ -94,5 +123,8 @@ Print Assumptions C01_generated_moves_exactly_legal.
 Print Assumptions C01_legal_positions_are_covered.
 Print Assumptions C01_invariant_of_the_generator.
 Print Assumptions C01_holds_along_every_chain.
+Print Assumptions C01_every_game_from_the_initial_position.
+Print Assumptions C01_every_game_from_an_accepted_legal_position.
+Print Assumptions C01_every_legal_position_can_be_loaded.
 Print Assumptions C01_probe_sees_enemy_king.
 Print Assumptions C01_castle_conditions.
